@@ -48,7 +48,9 @@ XStyleSeq == << [indent |-> 0, ref |-> 0, quote |-> 34, empty |-> 0, decl |-> 1,
                 [indent |-> 2, ref |-> 0, quote |-> 34, empty |-> 0, decl |-> 1, enc |-> "utf16le", bom |-> TRUE, order |-> 0],
                 [indent |-> 0, ref |-> 1, quote |-> 39, empty |-> 1, decl |-> 2, enc |-> "utf16be", bom |-> TRUE, order |-> 1],
                 [indent |-> 0, ref |-> 0, quote |-> 34, empty |-> 0, decl |-> 2, enc |-> "utf32le", bom |-> TRUE, order |-> 0],
-                [indent |-> -1, ref |-> 1, quote |-> 34, empty |-> 1, decl |-> 1, enc |-> "utf32be", bom |-> TRUE, order |-> 0] >>
+                [indent |-> -1, ref |-> 1, quote |-> 34, empty |-> 1, decl |-> 1, enc |-> "utf32be", bom |-> TRUE, order |-> 0],
+                \* character data as CDATA sections, each preceded by a comment
+                [indent |-> 0, ref |-> 0, quote |-> 34, empty |-> 0, decl |-> 1, enc |-> "utf8", bom |-> FALSE, order |-> 0, cdata |-> 1] >>
 \* the document as it is actually laid out (member order) under width/style index wi
 DocFor(d, wi) == IF Arch = "msgpack" THEN d
                  ELSE IF (IF Arch = "xml" THEN XStyleSeq[wi + 1].order ELSE JStyleSeq[wi + 1].order) = 0 THEN d ELSE ReverseMaps(d)
